@@ -1,12 +1,118 @@
-(* C13 -- proofs. *)
-From PV Require Import C13.Spec.
+(* C13 -- the end-to-end statements, assembled from ProofsRollup (statm, roll-up),
+   ProofsSums (the three regex scans), ProofsMaps (block splitter), ProofsGroup
+   (grouping, memory_percent). *)
+From PV Require Import C13.Spec C13.Lib C13.ProofsMaps C13.ProofsSums C13.ProofsRollup C13.ProofsGroup.
 
-Lemma percent_total_nonpositive memtype mi mfi total :
-  total <= 0 -> forall q, memory_percent memtype mi mfi total <> Val q.
+(* memory_full_info() when /proc/<pid>/smaps is the source: no roll-up support, or the
+   roll-up file answers ENOENT / ESRCH *)
+Theorem full_info_smaps ex pagesize r ms has_rollup rollup :
+  wf_statm r = true -> forallb (wf_kernel ex) ms = true ->
+  has_rollup = false \/ rollup = FENOENT \/ rollup = FESRCH ->
+  memory_full_info Alive pagesize has_rollup rollup (FContent (k_smaps ms)) (FContent (k_statm r))
+  = Val (spec_full pagesize r ms).
 Proof.
-  intros Ht q. unfold memory_percent.
-  destruct (index_of memtype pfullmem_fields); [|discriminate].
-  destruct (match index_of memtype pmem_fields with Some _ => mi | None => mfi end); cbn [obind]; try discriminate.
-  destruct (of_option AttributeError (nth_error a n)); cbn [obind]; try discriminate.
-  assert (0 <? total = false) as -> by lia. discriminate.
+  intros Hr Hms Hsrc. unfold memory_full_info, spec_full.
+  assert (E : parse_smaps Alive (FContent (k_smaps ms)) = Val (spec_sums ms)).
+  { unfold parse_smaps, with_file. now rewrite (smaps_sums_spec ex ms Hms). }
+  assert (S : (if has_rollup then match rollup with
+                                  | FENOENT | FESRCH => parse_smaps Alive (FContent (k_smaps ms))
+                                  | _ => with_file Alive rollup parse_rollup end
+               else parse_smaps Alive (FContent (k_smaps ms))) = Val (spec_sums ms)).
+  { destruct Hsrc as [->|[->| ->]]; [exact E|destruct has_rollup; exact E|destruct has_rollup; exact E]. }
+  rewrite S. cbn [obind]. destruct (spec_sums ms) as [[uss pss] swap].
+  cbn [with_file]. rewrite (statm_roundtrip pagesize r Hr). reflexivity.
 Qed.
+
+(* ... and when the roll-up file is the source, for every roll-up that describes the
+   same process as the listing *)
+Theorem full_info_rollup pagesize r ms rl smaps :
+  wf_statm r = true -> wf_rollup rl = true -> consistent rl ms = true ->
+  memory_full_info Alive pagesize true (FContent (k_rollup rl)) smaps (FContent (k_statm r))
+  = Val (spec_full pagesize r ms).
+Proof.
+  intros Hr Hrl Hc. unfold memory_full_info, spec_full, spec_sums. cbn [with_file].
+  rewrite (rollup_parse rl Hrl). cbn [obind]. rewrite (statm_roundtrip pagesize r Hr).
+  unfold consistent in Hc. apply andb_true_iff in Hc as [Hc H3]. apply andb_true_iff in Hc as [H1 H2].
+  apply Z.eqb_eq in H1, H2, H3. rewrite H1, H2, H3. reflexivity.
+Qed.
+
+(* the same record whichever file is the source *)
+Theorem rollup_agrees ex pagesize r ms rl :
+  wf_statm r = true -> forallb (wf_kernel ex) ms = true -> wf_rollup rl = true -> consistent rl ms = true ->
+  memory_full_info Alive pagesize true (FContent (k_rollup rl)) (FContent (k_smaps ms)) (FContent (k_statm r))
+  = memory_full_info Alive pagesize false (FContent (k_rollup rl)) (FContent (k_smaps ms)) (FContent (k_statm r)).
+Proof.
+  intros Hr Hms Hrl Hc. rewrite (full_info_rollup pagesize r ms rl _ Hr Hrl Hc).
+  symmetry. apply (full_info_smaps ex); auto.
+Qed.
+
+Lemma spec_rows_nums ms : nums_ok (map spec_row ms).
+Proof. unfold nums_ok. apply Forall_forall. intros r Hr. apply in_map_iff in Hr as (m & <- & _). reflexivity. Qed.
+
+(* memory_maps(grouped=True) over the kernel's listing *)
+Theorem maps_grouped ex ms : forallb (wf_mapping ex) ms = true ->
+  omap group_rows (memory_maps Alive ex (FContent (k_smaps ms))) = Val (spec_grouped (map spec_row ms)).
+Proof.
+  intros H. rewrite (maps_ungrouped ex ms H). unfold omap. cbn [obind].
+  now rewrite (group_rows_spec _ (spec_rows_nums ms)).
+Qed.
+
+(* memory_percent over the kernel's files *)
+Theorem percent_kernel ex pagesize r ms name total :
+  wf_statm r = true -> forallb (wf_kernel ex) ms = true -> 0 < total ->
+  memory_percent name (with_file Alive (FContent (k_statm r)) (memory_info pagesize))
+                 (memory_full_info Alive pagesize false FENOENT (FContent (k_smaps ms)) (FContent (k_statm r))) total
+  = spec_percent name (spec_full pagesize r ms) total.
+Proof.
+  intros Hr Hms Ht. rewrite (full_info_smaps ex pagesize r ms false FENOENT Hr Hms (or_introl eq_refl)).
+  cbn [with_file]. rewrite (statm_roundtrip pagesize r Hr).
+  assert (E : spec_meminfo pagesize r = firstn 7 (spec_full pagesize r ms)).
+  { unfold spec_full. destruct (spec_sums ms) as [[a b] c]. reflexivity. }
+  rewrite E. apply percent_spec; [|exact Ht].
+  unfold spec_full. destruct (spec_sums ms) as [[a b] c]. reflexivity.
+Qed.
+
+(* ------------------------------------------------ the excluded class is a real failure *)
+Definition wit_lines : list kline :=
+  [LFig FSize 0 (bs "4"); LFig FRss 0 (bs "4"); LFig FPss 0 (bs "4"); LFig FSharedClean 0 (bs "0");
+   LFig FSharedDirty 0 (bs "0"); LFig FPrivateClean 0 (bs "4"); LFig FPrivateDirty 0 (bs "0");
+   LFig FReferenced 0 (bs "4"); LFig FAnonymous 0 (bs "0"); LFig FSwap 0 (bs "0");
+   LOther (bs "THPeligible") 3 (bs "0") false; LFlags [bs "rd"; bs "mr"]].
+Definition wit_blank : mapping :=
+  {| m_addr := bs "00400000-00401000"; m_perms := bs "r-xp"; m_offset := bs "00000000"; m_dev := bs "fe:00";
+     m_inode := bs "320173"; m_pad := 3; m_path := bs "/tmp/a "; m_deleted := false; m_lines := wit_lines |}.
+Definition no_files : bytes -> bool := fun _ => false.
+
+(* a mapped file whose name ends with a blank: the kernel shows it, the row lacks it *)
+Theorem maps_trailing_blank_refuted :
+  exists m, wf_kernel no_files m = true /\ edges_ok m = false /\
+    exists rows, memory_maps Alive no_files (FContent (k_smaps [m])) = Val rows /\
+                 map w_path rows = [bs "/tmp/a"] /\ map w_path [spec_row m] = [bs "/tmp/a "].
+Proof.
+  exists wit_blank. split; [vm_compute; reflexivity|]. split; [vm_compute; reflexivity|].
+  eexists. split; [vm_compute; reflexivity|]. split; reflexivity.
+Qed.
+
+(* ------------------------------------------------ the hypotheses are satisfiable *)
+Definition ex_m1 : mapping :=
+  {| m_addr := bs "00400000-00401000"; m_perms := bs "r-xp"; m_offset := bs "00000000"; m_dev := bs "fe:00";
+     m_inode := bs "320173"; m_pad := 3; m_path := bs "/tmp/a b:c"; m_deleted := true; m_lines := wit_lines |}.
+Definition ex_m2 : mapping :=
+  {| m_addr := bs "7f0000000000-7f0000002000"; m_perms := bs "rw-p"; m_offset := bs "00000000"; m_dev := bs "00:00";
+     m_inode := bs "0"; m_pad := 0; m_path := []; m_deleted := false;
+     m_lines := LFig FPrivateHugetlb 2 (bs "2048") :: wit_lines |}.
+Definition ex_rollup : rollup :=
+  {| ru_hdr := bs "00400000-7f0000002000 ---p 00000000 00:00 0    [rollup]";
+     ru_lines := [LFig FRss 0 (bs "8"); LFig FPss 1 (bs "8"); LOther (bs "Pss_Anon") 0 (bs "8") true;
+                  LFig FPrivateClean 0 (bs "8"); LFig FPrivateDirty 0 (bs "0");
+                  LFig FPrivateHugetlb 0 (bs "2048"); LFig FSwap 0 (bs "0")] |}.
+Definition ex_statm : statm :=
+  {| s_size := bs "660"; s_resident := bs "312"; s_shared := bs "287"; s_text := bs "5"; s_lib := bs "0";
+     s_data := bs "123"; s_dt := bs "0" |}.
+
+Example hypotheses_satisfiable :
+  forallb (wf_mapping no_files) [ex_m1; ex_m2] = true /\ wf_rollup ex_rollup = true
+  /\ consistent ex_rollup [ex_m1; ex_m2] = true /\ wf_statm ex_statm = true
+  /\ spec_full 4096 ex_statm [ex_m1; ex_m2] = [1277952; 2703360; 1175552; 20480; 0; 503808; 0; 2105344; 8192; 0]
+  /\ map w_path (map spec_row [ex_m1; ex_m2]) = [bs "/tmp/a b:c"; bs "[anon]"].
+Proof. vm_compute. repeat split. Qed.
